@@ -409,6 +409,8 @@ class Rewriter:
             text = self.r5_ready(scope, text)
         if "R3" in u.rw:
             text = self.r3_pin(scope, text)
+        if "R4b" in u.rw:
+            text = self.r4b_this_to_self(scope, text)
         if "R13" in u.rw:
             text = self.r13_bytestr(scope, text)
         if u.index_recv:
@@ -551,6 +553,29 @@ class Rewriter:
             for mt in list(re.finditer(rx, text)):
                 self.note("R3", scope, mt.group(0), new)
             text = re.sub(rx, new, text)
+        return text
+
+    def r4b_this_to_self(self, scope, text):
+        """pin-projection erasure for functions that re-project (`this = self.as_mut().project()`):
+        the projection bindings are deleted and `*this.f` / `this.f` become `self.f`; `self.as_mut().m(` -> `self.m(`"""
+        m = rl.mask(text)
+        if not re.search(r"\bthis\b", m):
+            return text
+        rules = [(r"let\s+(?:mut\s+)?this\s*=\s*self(?:\.as_mut\(\))?\.project\(\);", ""),
+                 (r"\bthis\s*=\s*self(?:\.as_mut\(\))?\.project\(\);", ""),
+                 (r"\*this\.", "self."), (r"\bthis\.", "self."), (r"\bself\.as_mut\(\)\.", "self.")]
+        n = 0
+        for rx, new in rules:
+            out = []
+            last = 0
+            m = rl.mask(text)
+            for mt in re.finditer(rx, m):
+                out.append(text[last:mt.start()] + new)
+                last = mt.end()
+                n += 1
+            out.append(text[last:])
+            text = "".join(out)
+        self.note("R4b", scope, "%d projection sites (`this.f`, `*this.f`, `self.as_mut().m(`, `this = self.project()`)" % n, "`self.f` / `self.m(`")
         return text
 
     def r13_bytestr(self, scope, text):
